@@ -153,7 +153,17 @@ class CodecStream:
                     a.update(will=1, wtopic=hx(rng.choice(UNI)), wpayload=hx(bytes(rng.randrange(256) for _ in range(rng.choice([0, 3, 20])))),
                              wqos=rng.choice([0, 1, 2]), wretain=rng.randrange(2))
                     if proto == 5:
-                        a["wprops"] = rand_props(rng, 99)
+                        a["wprops"] = rand_props(rng, 99) if rng.random() < 0.7 else "-"
+                # history: the will (and credentials) were set differently before; only the last values count
+                if rng.random() < 0.35:
+                    a["pw"] = 1
+                    if proto == 5:
+                        a["pwprops"] = rng.choice(["MessageExpiryInterval~i:30", "WillDelayInterval~i:5,PayloadFormatIndicator~i:1",
+                                                   "UserProperty~p:6b:76"])
+                    if a.get("will") != 1 or rng.random() < 0.4:
+                        a["pc"] = 1          # will_clear() in between
+                    if rng.random() < 0.3:
+                        a["pu"] = 1          # other credentials before
                 case.append("connect " + " ".join(f"{k}={v}" for k, v in a.items()))
             elif r < 0.65:
                 t = rng.choice(UNI + ([""] if proto == 5 else []))
@@ -246,6 +256,15 @@ class CodecStream:
                     w, c = self._client(proto, clean=a.get("clean") == "1", cid=unhx(a.get("cid", "-")).decode())
                     if a.get("bridge") == "1":
                         c.enable_bridge_mode()
+                    if a.get("pu") == "1":
+                        c.username_pw_set("old-user", "old-password")
+                        if "user" not in a:
+                            c.username_pw_set(None)
+                    if a.get("pw") == "1":
+                        c.will_set("old/will", b"old", 1, True,
+                                   mk_props(PacketTypes.WILLMESSAGE, a.get("pwprops", "-")) if proto == 5 else None)
+                        if a.get("pc") == "1":
+                            c.will_clear()
                     if "user" in a:
                         c.username_pw_set(unhx(a["user"]).decode(), unhx(a["pass"]).decode() if "pass" in a else None)
                     if a.get("will") == "1":
